@@ -163,7 +163,11 @@ impl Output {
                         // Rename the old output file so that we can create a new file in its place.
                         // Reusing the existing file would also be an option, but that wouldn't
                         // error if the file is currently being executed.
-                        let renamed_old_file = path.with_extension("delete");
+                        // Include our PID so that we don't clobber a file the user owns and so
+                        // that concurrent links of outputs with the same stem don't collide.
+                        let mut renamed_old_file = path.as_os_str().to_owned();
+                        renamed_old_file.push(format!(".{}.delete", std::process::id()));
+                        let renamed_old_file = std::path::PathBuf::from(renamed_old_file);
                         let rename_status = std::fs::rename(&path, &renamed_old_file);
                         #[cfg(feature = "verif")]
                         crate::verif::phase::point("creator:after-rename");
